@@ -304,3 +304,13 @@ class untraced:
         if self._cm is not None:
             self._cm.__exit__(*a)
         return False
+
+
+def concrete(x, lo, hi):
+    """case split of a symbolic control value over its (small) range lo..hi: each comparison is a solver
+    fork, so every path continues with one concrete value and the paths cover the range exhaustively
+    (crosshair.realize would pick model values without an exhaustible decision tree)"""
+    for v in range(lo, hi):
+        if x == v:
+            return v
+    return hi
